@@ -303,10 +303,9 @@ VSfdefine(int32 vkey, const char *field, int32 localtype, int32 order)
     /* --- then look in the user's symbol table --- */
     for (replacesym = 0, j = 0; j < vs->nusym; j++)
         if (!strcmp(av[0], vs->usym[j].name)) {
-            if (localtype != rstab[j].type && order != rstab[j].order) {
-                replacesym = 1;
-                break;
-            }
+            /* a field that is defined again gets the new definition */
+            replacesym = 1;
+            break;
         }
 
     if (replacesym)
